@@ -175,7 +175,7 @@ def net_request(A, directed, w, perm):
 
 
 def impl_net(pnet, directed, connected):
-    """the 22 sections of `netRelabelled`, `None` where the implementation's notion differs
+    """the 23 sections of `netRelabelled`, `None` where the implementation's notion differs
     (undirected notions on directed networks, closeness on unconnected ones)"""
     und = not directed
     n = pnet.N
@@ -194,7 +194,9 @@ def impl_net(pnet, directed, connected):
            attempt(pnet.nsi_closeness) if und else None,
            attempt(pnet.coreness),
            attempt(pnet.nsi_indegree), attempt(pnet.nsi_outdegree), attempt(pnet.nsi_degree),
-           attempt(pnet.nsi_local_clustering) if und else None]
+           attempt(pnet.nsi_local_clustering) if und else None,
+           # round 4: the loop over the edge list (ZeroDivisionError -> not compared)
+           attempt(pnet.assortativity) if und and pnet.n_links > 0 else None]
     return sec
 
 
@@ -1004,7 +1006,7 @@ def run(ctx):
                    "\n".join(bad_eval[:8]))
     ctx.extra["values_compared"] = nvals
     names = {"net": "C03 model `Net` (degrees, motif clustering, matching index, BFS distances, path "
-                    "measures, coreness peeling, n.s.i. degree / clustering / closeness)",
+                    "measures, coreness peeling, n.s.i. degree / clustering / closeness, assortativity)",
              "cross": "C11 model `Cross` (cross / internal measures with node lists renumbered by "
                       "`Relabel.nodes`)",
              "res": "C18 model `Circuit` (effective resistance via certified pseudo-inverses, closeness, "
